@@ -58,6 +58,12 @@ pub fn observe<L: Tab>(t: &TT, ops: &[String], others: &[TT], canon: bool) -> Ve
             format!("{} {:?} {:#x}", fmt_words(r.t_blocks()), p, m)
         }));
     }
+    for i in 0..n.saturating_sub(1) {
+        push(format!("swap_adjacent({}) result and receiver", i), guarded(|| {
+            let (r, recv) = l.t_swap_adjacent(i);
+            format!("{} / {}", fmt_words(r.t_blocks()), fmt_words(recv.t_blocks()))
+        }));
+    }
     for op in ops {
         push(
             format!("op {}", op),
@@ -74,6 +80,48 @@ pub fn observe<L: Tab>(t: &TT, ops: &[String], others: &[TT], canon: bool) -> Ve
             guarded(|| {
                 let o: L = mk_tt(u);
                 format!("{:?} {:?} {} {} {} bdd={}", l.cmp(&o), l.partial_cmp(&o), l == o, l < o, std::cmp::max(l.clone(), o.clone()).t_hex(), L::t_bdd(&[l.clone(), o.clone()]))
+            }),
+        );
+    }
+    // ordering among single-bit deviations of this table (pairs that share their other words)
+    {
+        let nb = nbits(n);
+        let mut pos: Vec<usize> = vec![0, 1, nb / 2, nb - 1];
+        for w in 0..crate::model::tt::nwords(n) {
+            pos.push(w * 64);
+            pos.push(w * 64 + 63.min(nb - 1));
+        }
+        pos.retain(|p| *p < nb);
+        pos.sort();
+        pos.dedup();
+        if pos.len() > 12 {
+            let keep: Vec<usize> = pos.iter().copied().take(6).chain(pos.iter().copied().rev().take(6)).collect();
+            pos = keep;
+        }
+        push(
+            "cmp among single-bit deviations".into(),
+            guarded(|| {
+                let devs: Vec<L> = pos
+                    .iter()
+                    .map(|p| {
+                        let mut x = l.clone();
+                        x.t_set_value(*p, !l.t_value(*p));
+                        x
+                    })
+                    .collect();
+                let mut out = String::new();
+                for a in &devs {
+                    for b in &devs {
+                        out.push(match a.cmp(b) {
+                            std::cmp::Ordering::Less => '<',
+                            std::cmp::Ordering::Equal => '=',
+                            std::cmp::Ordering::Greater => '>',
+                        });
+                    }
+                }
+                let mut sorted = devs.clone();
+                sorted.sort();
+                format!("{} sorted-first={}", out, sorted.first().map(|x| x.t_hex()).unwrap_or_default())
             }),
         );
     }
@@ -320,6 +368,30 @@ fn parses<S: Tab>(run: &Run, n: usize) {
             }
         }
     });
+}
+
+/// `StaticLut::<big>::try_from(Lut of n variables with these blocks)`: Ok(blocks) / Err(())
+pub fn try_from_dyn(n: usize, w: &[u64], big: usize) -> Result<Vec<u64>, ()> {
+    let d = Lut::from_blocks(n, w);
+    fn conv<const N: usize, const T: usize>(d: Lut) -> Result<Vec<u64>, ()> {
+        volute::StaticLut::<N, T>::try_from(d).map(|s| s.blocks().to_vec())
+    }
+    match big {
+        0 => conv::<0, 1>(d),
+        1 => conv::<1, 1>(d),
+        2 => conv::<2, 1>(d),
+        3 => conv::<3, 1>(d),
+        4 => conv::<4, 1>(d),
+        5 => conv::<5, 1>(d),
+        6 => conv::<6, 1>(d),
+        7 => conv::<7, 2>(d),
+        8 => conv::<8, 4>(d),
+        9 => conv::<9, 8>(d),
+        10 => conv::<10, 16>(d),
+        11 => conv::<11, 32>(d),
+        12 => conv::<12, 64>(d),
+        _ => Err(()),
+    }
 }
 
 fn tryfrom_one<S: Tab>(n: usize, big: usize) -> Verdict {
